@@ -241,10 +241,21 @@ func (sc *collection) doBuild(ctx context.Context) (Provider, error) {
 		}
 	}
 
+	// The provider works on a snapshot of the registry: later changes to the
+	// collection must not reach a provider that is already built.
+	services := make(map[TypeKey]*Descriptor, len(sc.services))
+	for key, descriptor := range sc.services {
+		services[key] = descriptor
+	}
+	groups := make(map[GroupKey][]*Descriptor, len(sc.groups))
+	for key, members := range sc.groups {
+		groups[key] = append([]*Descriptor(nil), members...)
+	}
+
 	p := &provider{
 		id:                          "p" + strconv.FormatUint(atomic.AddUint64(&providerIDCounter, 1), 36),
-		services:                    sc.services,
-		groups:                      sc.groups,
+		services:                    services,
+		groups:                      groups,
 		graph:                       g,
 		analyzer:                    sc.analyzer, // Share analyzer from collection
 		singletonKeys:               make([]instanceKey, 0, len(allDescriptors)),
@@ -385,8 +396,26 @@ func (r *collection) Remove(t reflect.Type) {
 	r.mu.Lock()
 	defer r.mu.Unlock()
 
-	typeKey := TypeKey{Type: t}
+	r.removeService(TypeKey{Type: t})
+}
+
+// removeService drops the registration stored under typeKey from every view
+// of the collection, so that later builds no longer see it.
+func (r *collection) removeService(typeKey TypeKey) {
+	descriptor, ok := r.services[typeKey]
+	if !ok {
+		return
+	}
+
 	delete(r.services, typeKey)
+
+	remaining := make([]*Descriptor, 0, len(r.allDescriptors))
+	for _, d := range r.allDescriptors {
+		if d != descriptor {
+			remaining = append(remaining, d)
+		}
+	}
+	r.allDescriptors = remaining
 }
 
 // RemoveKeyed removes a specific keyed service
@@ -398,8 +427,7 @@ func (r *collection) RemoveKeyed(t reflect.Type, key any) {
 	r.mu.Lock()
 	defer r.mu.Unlock()
 
-	typeKey := TypeKey{Type: t, Key: key}
-	delete(r.services, typeKey)
+	r.removeService(TypeKey{Type: t, Key: key})
 }
 
 // ToSlice returns a copy of all registered service descriptors
